@@ -77,6 +77,9 @@ type Behaviour struct {
 	Command func(taskId, className, event string) CmdOutcome
 	// Kill decides whether a KILL is answered with TASK_KILLED (default true).
 	Kill func(taskId string) bool
+	// KillError, when it returns an error, makes the KILL call itself fail (the master refuses it): the
+	// call is recorded as "KILL_REFUSED" and nothing happens to the task.
+	KillError func(taskId string) error
 	// Hook decides the exit code of a triggered hook task (default 0); <0 = never terminates.
 	Hook func(taskId, className string) int
 }
@@ -392,6 +395,12 @@ func (s *Sim) Call(ctx context.Context, call *scheduler.Call) (mesos.Response, e
 		s.record(rec)
 	case scheduler.Call_KILL:
 		tid := call.GetKill().TaskID.Value
+		if s.Beh.KillError != nil {
+			if err := s.Beh.KillError(tid); err != nil {
+				s.record(CallRecord{Type: "KILL_REFUSED", Kill: tid, FwID: fw})
+				return nil, err
+			}
+		}
 		s.record(CallRecord{Type: "KILL", Kill: tid, FwID: fw})
 		answer := true
 		if s.Beh.Kill != nil {
